@@ -496,6 +496,15 @@ func evalC03(tier string, i int) vx.Exec {
 			x.Violations = append(x.Violations, fmt.Sprintf("HEADER: field %s arrived as %q, the backend sent %q (%s)", k, clipVals(resp.Header[k]), clipVals(vals), c))
 		}
 	}
+	if c.interim != "none" && c.interim != "100" {
+		sentLink := false
+		for _, l := range c.hs.lines {
+			sentLink = sentLink || strings.HasPrefix(l, "Link:")
+		}
+		if v := resp.Header["Link"]; len(v) > 0 && !sentLink {
+			x.Violations = append(x.Violations, fmt.Sprintf("INTERIM-LEAK: field Link %q of an interim 103 response showed up in the final response's header (%s)", v, c))
+		}
+	}
 	if resp.Header.Get("X-Case") != id {
 		x.Violations = append(x.Violations, fmt.Sprintf("HEADER: X-Case arrived as %q (%s)", resp.Header.Get("X-Case"), c))
 	}
